@@ -199,7 +199,9 @@ def run_level(prog, i, stack, outer_objs, res):
     res.violation('scope_not_restored', 'after leaving level %d (%r, exit=%s) current_scope()=%r, model %r '
                   '(program %r)' % (i, entry, exit_kind, cur, stack[-1], prog), prog)
     # re-synchronise so that one defect does not cascade
-    cfg._SCOPE_MANAGER._active_scopes = [list(s) for s in stack]
+    harness.reset_scope_manager()
+    for s_ in stack[1:]:
+      cfg._SCOPE_MANAGER.enter_scope(list(s_))
 
 
 def run_program(prog, res):
